@@ -208,7 +208,7 @@ Definition max_tombstone (s : state) (id : N) : option Z :=
 
 (* one NodeToInsert: Node::filter_existing (a version that a stored deletion record covers is not
    requested; an older or equal stored version wins), Node::write, NodeToInsert::update_daily_logs
-   (the day of the previous version is always marked) *)
+   (the day of the previous version is always marked, under the entity it is stored with: 9b19d99) *)
 Definition ingest1 (room : N) (acc : state * list lkey) (sn : snode) : state * list lkey :=
   let '(s, ms) := acc in
   let n' := {| n_id := sn_id sn; n_room := Some room; n_ent := sn_ent sn; n_mdate := sn_mdate sn; n_sig := sn_sig sn |} in
@@ -218,7 +218,7 @@ Definition ingest1 (room : N) (acc : state * list lkey) (sn : snode) : state * l
       if (sn_mdate sn <? n_mdate old) || ((sn_mdate sn =? n_mdate old) && N.leb (sn_sig sn) (n_sig old))
       then (s, ms)
       else (set_tables s (replace_first (fun n => N.eqb (n_id n) (sn_id sn)) n' (nodes s)) (ndels s) (edels s) (edges s),
-            ms ++ room_mark (n_room old) (sn_ent sn) (n_mdate old) ++ [(room, sn_ent sn, day (sn_mdate sn))])
+            ms ++ room_mark (n_room old) (n_ent old) (n_mdate old) ++ [(room, sn_ent sn, day (sn_mdate sn))])
   | None => (set_tables s (nodes s ++ [n']) (ndels s) (edels s) (edges s),
              ms ++ [(room, sn_ent sn, day (sn_mdate sn))])
   end.
